@@ -318,11 +318,21 @@ Qed.
 Lemma launch_all_length ds : forall ls, length (launch_all ds ls) = length ds.
 Proof. induction ds as [|d ds IH]; intro ls; cbn; [reflexivity|]. rewrite IH. reflexivity. Qed.
 
-(* DEPLOY succeeds iff the workflow has a role and every task (critical or not) became active *)
-Lemma deploy_ok_iff ds nc ls :
-  deploy_ok (launch_all ds ls) nc = true <-> (ds <> [] \/ nc <> 0) /\ all_launch_ok ds ls = true.
+(* the lock discipline of SafeStatus.merge / get counted by the translator is the one under which
+   the root's status is the fold of the leaves *)
+Lemma status_merge_atomic_in_source : status_merge_atomic = true.
+Proof. vm_compute. reflexivity. Qed.
+
+Lemma deploy_needs_atomic ts nc : status_merge_atomic = false -> deploy_ok ts nc = false.
+Proof. unfold deploy_ok. intros ->. reflexivity. Qed.
+
+(* DEPLOY succeeds iff the workflow has a role and every task (critical or not) became active -
+   given that status aggregation is atomic *)
+Lemma deploy_ok_iff_atomic ds nc ls : status_merge_atomic = true ->
+  (deploy_ok (launch_all ds ls) nc = true <-> (ds <> [] \/ nc <> 0) /\ all_launch_ok ds ls = true).
 Proof.
-  unfold deploy_ok, wf_status, wf_leaves. rewrite status_beq_iff, fold_status_ACTIVE. split.
+  intro Hat. unfold deploy_ok. rewrite Hat. cbn [andb].
+  unfold wf_status, wf_leaves. rewrite status_beq_iff, fold_status_ACTIVE. split.
   - intros [Hne Hall]. split.
     + destruct ds as [|d ds]; [|left; discriminate]. right. intro E. subst nc. apply Hne. reflexivity.
     + apply launch_all_stat. intros c Hc. apply Hall. apply in_or_app. left. exact Hc.
@@ -401,6 +411,10 @@ Proof.
       * destruct pre; discriminate.
       * eapply IH; eassumption.
 Qed.
+
+Lemma deploy_ok_iff ds nc ls :
+  deploy_ok (launch_all ds ls) nc = true <-> (ds <> [] \/ nc <> 0) /\ all_launch_ok ds ls = true.
+Proof. exact (deploy_ok_iff_atomic ds nc ls status_merge_atomic_in_source). Qed.
 
 (* ------------------------------------------------------------------ *)
 (* 7. Creation: the exact condition under which "iff critical" holds   *)
